@@ -202,7 +202,29 @@ def cli_replay_columns(cols):
     return rep
 
 
-def fam_wiring(sess):
+def cli_replay_nomode(col):
+    """a zip whose member has no unix mode (create_system = 0, external_attr = 0) inside an archive file with all permission bits set"""
+    def rep():
+        import os, tempfile, shutil, subprocess, zipfile
+        exe = common.native_binary()
+        d = tempfile.mkdtemp(prefix='verif-c04z-', dir=common.SCRATCH_ROOT)
+        try:
+            zp = os.path.join(d, 'a.zip')
+            z = zipfile.ZipFile(zp, 'w')
+            zi = zipfile.ZipInfo('member.txt'); zi.create_system = 0; zi.external_attr = 0
+            z.writestr(zi, 'data'); z.close()
+            os.chmod(zp, 0o7777)
+            sql = col_sql(col)
+            r = subprocess.run([exe, 'name, %s from %s archives' % (sql, d)], env={'PATH': os.environ['PATH'], 'HOME': d, 'TZ': 'UTC'}, stdout=subprocess.PIPE, stderr=subprocess.PIPE, timeout=20)
+            rows = dict(l.split('\t') for l in r.stdout.decode().split('\n')[:-1] if '\t' in l)
+            got = rows.get('[a.zip] member.txt')
+            return got != 'false', '%s of a member without a stored mode inside a 07777 archive file: %r (expected false); rows %r' % (sql, got, rows)
+        finally:
+            shutil.rmtree(d, ignore_errors=True)
+    return rep
+
+
+def fam_wiring(sess, only_zip=False):
     prog = sess.prog
     fam = 'wiring'
     ex = sess.executor(models() + wiring_overrides(), unwind=6)
@@ -211,15 +233,22 @@ def fam_wiring(sess):
     cols = list(TYPE_COLS) + list(PERM_COLS) + list(INT_COLS) + list(TOKEN_COLS)
     sess.bounds[fam] = {'columns': cols, 'lstat record': 'symbolic (all modes of the seven file types, 62-bit sizes / counters)', 'symlinks root option': 'symbolic (the entry\'s own attributes either way)', 'zip members': 'stored mode symbolic (type and permission columns)'}
     for col in cols:
-        for archived in ((False, True) if (col in TYPE_COLS and col not in ('IsDir', 'IsFile', 'IsSymlink')) or col in PERM_COLS or col == 'Mode' else (False,)):
+        for archived in ((False, True, 'nomode') if (col in TYPE_COLS and col not in ('IsDir', 'IsFile', 'IsSymlink')) or col in PERM_COLS else (False, True) if col == 'Mode' else (False,)):
             box = {}
+            if only_zip and not archived:
+                continue
 
             def run(ctx, col=col, archived=archived):
                 meta = MetaV(ctx)
                 entry = EntryM(meta)
                 ctx.ghost['entry'] = entry
                 s = E.mk_searcher(prog, fms=ctx.call_fn(fms_new, []), current_follow_symlinks=ctx.fresh_bool('root_follows_symlinks'))
-                if archived:
+                if archived == 'nomode':
+                    # a member without a stored unix mode (jars, zips made on other systems): its mode booleans are false —
+                    # never those of the archive file that contains it
+                    amode = None
+                    fi = some(E.mk_struct(prog, 'FileInfo', {'name': Str('dir/member.txt'), 'size': ctx.fresh_bv('zip_size', 64), 'mode': none(), 'modified': none()}))
+                elif archived:
                     amode = ctx.fresh_bv('zip_mode', 32)
                     fi = some(E.mk_struct(prog, 'FileInfo', {'name': Str('dir/member.txt'), 'size': ctx.fresh_bv('zip_size', 64), 'mode': some(amode), 'modified': none()}))
                 else:
@@ -228,7 +257,7 @@ def fam_wiring(sess):
                 return meta, amode, v
 
             def on_path(ctx, out, col=col, archived=archived):
-                name = 'wiring %s%s' % (col, ' (zip member)' if archived else '')
+                name = 'wiring %s%s' % (col, ' (zip member without a stored mode)' if archived == 'nomode' else ' (zip member)' if archived else '')
                 if out[0] != 'ret':
                     box['bad'] = True; sess.inconclusive(name, str(out), fam); return
                 meta, amode, v = out[1]
@@ -254,7 +283,9 @@ def fam_wiring(sess):
                     cond = And(BoolVal(conc(iv.d) == 1), iv.p[1][0] == want) if conc(iv.d) == 1 else BoolVal(False)
                 else:
                     bv_ = v.f[F.index('bool_value')]
-                    if col in TYPE_COLS:
+                    if archived == 'nomode':
+                        want = BoolVal(False)
+                    elif col in TYPE_COLS:
                         want = (mode & IFMT) == TYPE_COLS[col]
                     else:
                         msk, val = PERM_COLS[col]
@@ -267,11 +298,14 @@ def fam_wiring(sess):
                     return
                 box['viol'] = True
                 m = ctx.model(Not(cond))
+                if archived == 'nomode':
+                    sess.violated(name, 'wiring/' + col + '/zip-nomode', 'a member without a stored mode reports %s = true' % col, {'column': col}, cli_replay_nomode(col), fam)
+                    return
                 sess.violated(name, 'wiring/' + col + ('/zip' if archived else ''), 'the column is not the attribute it names (mode %s)' % oct(m.eval(mode, model_completion=True).as_long()),
                               {'column': col}, cli_replay_columns([col]), fam)
             ex.explore(run, on_path)
             if not box.get('viol') and not box.get('bad'):
-                sess.discharged('wiring %s%s' % (col, ' (zip member)' if archived else ''), family=fam, queries=box.get('paths', 1))
+                sess.discharged('wiring %s%s' % (col, ' (zip member without a stored mode)' if archived == 'nomode' else ' (zip member)' if archived else ''), family=fam, queries=box.get('paths', 1))
 
 
 # ------------------------------------------------------------------------------------------------ content readers
